@@ -33,6 +33,8 @@ RULE = ("dates: ordinal 1, 3652059, every 1 Jan / 31 Dec / 29 Feb (sampled in qu
         "uuids: 0, 2^128-1, single-byte patterns, random; decimals: (precision <= 40, scale <= precision, size <= 17) accepted by "
         "parse_schema, values +-(2^(8k-1) - {0,1,2}), +-(2^(8k-1)+1), +-10^j, +-(10^j - 1), negative zero in several exponents, "
         "positive exponents, one digit too many, one fractional digit too many, one bit too large, NaN / Infinity, random; "
+        "container positions: every logical type at top level, as record field, array item, map value, union branch, in nested "
+        "containers and (named fixed decimal) by reference, read schemaless / from a container file, with and without a reader schema; "
         "reader alone: random byte strings incl. more digits than the precision and exact ties (half-even rounding); "
         "non-trivial = distinct datum inside the type's domain that is written without error")
 TRUSTED = ["datetime / decimal / uuid are the standard library's: a date enters the model as its ordinal, a time as (h,m,s,us), "
@@ -704,6 +706,155 @@ def run_uuids(ctx, q):
     ctx.notes["uuids"] = len(ns)
 
 
+# ------------------------------------------------------------------ every logical type in every container position
+# The converters must be applied wherever the annotated type occurs: top level, record field, array item, map value,
+# union branch, nested containers, and (named fixed) by reference -- read schemaless or from a container file, with and
+# without a reader schema.  The wire bytes must be the container framing around the top-level encoding (which the
+# families above tie to the model), and what is read back must be the container of the top-level read-back value.
+def enc_long(n):
+    n = (n << 1) ^ (n >> 63)
+    out = bytearray()
+    while n & ~0x7F:
+        out.append((n & 0x7F) | 0x80)
+        n >>= 7
+    out.append(n)
+    return bytes(out)
+
+
+def enc_str(t):
+    b = t.encode()
+    return enc_long(len(b)) + b
+
+
+FIXED_DEC = {"type": "fixed", "name": "FixDec", "size": 8, "logicalType": "decimal", "precision": 18, "scale": 4}
+POS_LOGICALS = {   # name -> (schema, [(datum, expected read back)])
+    "date": (S_DATE, [(D.date(1, 1, 1), D.date(1, 1, 1)), (D.date(1969, 12, 31), D.date(1969, 12, 31)), (D.date(9999, 12, 31), D.date(9999, 12, 31))]),
+    "time-millis": (S_TMIL, [(D.time(23, 59, 59, 999999), D.time(23, 59, 59, 999000)), (D.time(0, 0, 0, 1000), D.time(0, 0, 0, 1000))]),
+    "time-micros": (S_TMIC, [(D.time(23, 59, 59, 999999), D.time(23, 59, 59, 999999)), (D.time(12, 0, 1, 1), D.time(12, 0, 1, 1))]),
+    "timestamp-millis": (TS_KINDS["timestamp-millis"][1],
+                         [(D.datetime(1969, 12, 31, 23, 59, 59, 999999, tzinfo=D.timezone(D.timedelta(hours=5, minutes=30))),
+                           D.datetime(1969, 12, 31, 18, 29, 59, 999000, tzinfo=D.timezone.utc)),
+                          (D.datetime(2024, 2, 29, 12, 0, 0, 1500, tzinfo=D.timezone.utc), D.datetime(2024, 2, 29, 12, 0, 0, 1000, tzinfo=D.timezone.utc))]),
+    "timestamp-micros": (TS_KINDS["timestamp-micros"][1],
+                         [(D.datetime(1, 1, 2, 0, 0, 0, 1, tzinfo=D.timezone(D.timedelta(hours=-8))), D.datetime(1, 1, 2, 8, 0, 0, 1, tzinfo=D.timezone.utc)),
+                          (D.datetime(2038, 1, 19, 3, 14, 8, 999999, tzinfo=D.timezone.utc), D.datetime(2038, 1, 19, 3, 14, 8, 999999, tzinfo=D.timezone.utc))]),
+    "local-timestamp-millis": (TS_KINDS["local-timestamp-millis"][1],
+                               [(D.datetime(1903, 7, 4, 6, 0, 0, 5999), D.datetime(1903, 7, 4, 6, 0, 0, 5000)), (D.datetime(2021, 3, 14, 2, 30), D.datetime(2021, 3, 14, 2, 30))]),
+    "local-timestamp-micros": (TS_KINDS["local-timestamp-micros"][1],
+                               [(D.datetime(1969, 12, 31, 23, 59, 59, 999999), D.datetime(1969, 12, 31, 23, 59, 59, 999999)), (D.datetime(9999, 12, 31, 23, 59, 59, 999999),) * 2]),
+    "uuid": (S_UUID, [(uuid.UUID(int=0x0123456789abcdef0123456789abcdef),) * 2, (uuid.UUID(int=2 ** 128 - 1),) * 2]),
+    "bytes-decimal": ({"type": "bytes", "logicalType": "decimal", "precision": 12, "scale": 3},
+                      [(Decimal("-1.280"), Decimal("-1.28")), (Decimal("-0"), Decimal("0")), (Decimal("123456789.123"),) * 2, (Decimal("1E+3"), Decimal("1000"))]),
+    "fixed-decimal": (FIXED_DEC, [(Decimal("-92233720368547.7580"),) * 2, (Decimal("-0.0001"),) * 2, (Decimal("5E+2"), Decimal("500"))]),
+}
+
+
+def rec(name, fields):
+    return {"type": "record", "name": name, "fields": [{"name": n, "type": t} for n, t in fields]}
+
+
+# position -> (schema L -> schema, datum x -> datum, wire w -> wire, expected e -> expected)
+POSITIONS = {
+    "top-level": (lambda L: L, lambda x: x, lambda w: w, lambda e: e),
+    "record-field": (lambda L: rec("R", [("a", "int"), ("f", L)]), lambda x: {"a": 7, "f": x}, lambda w: enc_long(7) + w, lambda e: {"a": 7, "f": e}),
+    "array-item": (lambda L: {"type": "array", "items": L}, lambda x: [x, x], lambda w: enc_long(2) + w + w + enc_long(0), lambda e: [e, e]),
+    "map-value": (lambda L: {"type": "map", "values": L}, lambda x: {"k": x}, lambda w: enc_long(1) + enc_str("k") + w + enc_long(0), lambda e: {"k": e}),
+    "union-branch": (lambda L: ["null", L], lambda x: x, lambda w: enc_long(1) + w, lambda e: e),
+    "union-in-record": (lambda L: rec("R", [("f", ["null", L]), ("g", ["null", "string"])]), lambda x: {"f": x, "g": None},
+                        lambda w: enc_long(1) + w + enc_long(0), lambda e: {"f": e, "g": None}),
+    "map-of-arrays": (lambda L: {"type": "map", "values": {"type": "array", "items": L}}, lambda x: {"k": [x]},
+                      lambda w: enc_long(1) + enc_str("k") + enc_long(1) + w + enc_long(0) + enc_long(0), lambda e: {"k": [e]}),
+    "array-of-maps": (lambda L: {"type": "array", "items": {"type": "map", "values": L}}, lambda x: [{"k": x}],
+                      lambda w: enc_long(1) + enc_long(1) + enc_str("k") + w + enc_long(0) + enc_long(0), lambda e: [{"k": e}]),
+    "map-in-record": (lambda L: rec("R", [("m", {"type": "map", "values": L})]), lambda x: {"m": {"k": x, }},
+                      lambda w: enc_long(1) + enc_str("k") + w + enc_long(0), lambda e: {"m": {"k": e}}),
+    "array-of-unions": (lambda L: {"type": "array", "items": ["null", L]}, lambda x: [None, x],
+                        lambda w: enc_long(2) + enc_long(0) + enc_long(1) + w + enc_long(0), lambda e: [None, e]),
+}
+# the named fixed decimal defined once and then used by reference
+BY_NAME = {
+    "field-by-name": (lambda L: rec("R", [("d", L), ("f", L["name"])]), lambda x: {"d": x, "f": x}, lambda w: w + w, lambda e: {"d": e, "f": e}),
+    "map-value-by-name": (lambda L: rec("R", [("d", L), ("m", {"type": "map", "values": L["name"]})]), lambda x: {"d": x, "m": {"k": x}},
+                          lambda w: w + enc_long(1) + enc_str("k") + w + enc_long(0), lambda e: {"d": e, "m": {"k": e}}),
+    "array-item-by-name": (lambda L: rec("R", [("d", L), ("a", {"type": "array", "items": L["name"]})]), lambda x: {"d": x, "a": [x]},
+                           lambda w: w + enc_long(1) + w + enc_long(0), lambda e: {"d": e, "a": [e]}),
+    "union-branch-by-name": (lambda L: rec("R", [("d", L), ("u", ["null", L["name"]])]), lambda x: {"d": x, "u": x},
+                             lambda w: w + enc_long(1) + w, lambda e: {"d": e, "u": e}),
+}
+READ_MODES = ["schemaless", "schemaless+reader-schema", "container", "container+reader-schema"]
+
+
+def same_shape(a, b):
+    """equal values AND equal Python types at the leaves (a raw int / str / bytes is not a date / UUID / Decimal)"""
+    if isinstance(a, dict) and isinstance(b, dict):
+        return a.keys() == b.keys() and all(same_shape(a[k], b[k]) for k in a)
+    if isinstance(a, list) and isinstance(b, list):
+        return len(a) == len(b) and all(same_shape(x, y) for x, y in zip(a, b))
+    return type(a) is type(b) and a == b
+
+
+def eval_position(case):
+    import fastavro
+    name, pos, mode = case["logical"], case["position"], case["mode"]
+    L, data = POS_LOGICALS[name]
+    x, e = data[case["datum"]]
+    mk_schema, mk_datum, mk_wire, mk_expect = (POSITIONS.get(pos) or BY_NAME[pos])
+    schema = fastavro.parse_schema(mk_schema(dict(L)))
+    datum, expect = mk_datum(x), mk_expect(e)
+    top = attempt(lambda: wr(L, x))
+    if top[0] != "ok":
+        return dict(wire="top-level write " + top[0]), False, "the datum cannot be written at top level"
+    want_wire = mk_wire(top[1])
+
+    def go():
+        if mode.startswith("schemaless"):
+            bio = io.BytesIO()
+            fastavro.schemaless_writer(bio, schema, datum)
+            raw = bio.getvalue()
+            back = fastavro.schemaless_reader(io.BytesIO(raw), schema, schema if mode.endswith("reader-schema") else None)
+            return raw, back
+        bio = io.BytesIO()
+        fastavro.writer(bio, schema, [datum, datum])
+        bio.seek(0)
+        recs = list(fastavro.reader(bio, reader_schema=schema if mode.endswith("reader-schema") else None))
+        if len(recs) != 2 or not same_shape(recs[0], recs[1]):
+            return None, ("records", recs)
+        return None, recs[0]
+    r = attempt(go)
+    if r[0] != "ok":
+        return dict(result=r[0], error=r[1]), False, "writing / reading the datum in this position raised %s" % r[1]
+    raw, back = r[1]
+    impl = dict(wire=raw.hex() if raw is not None else None, back=back)
+    if raw is not None and raw != want_wire:
+        return impl, False, "bytes written %s are not the container framing around the top-level encoding %s" % (raw.hex(), want_wire.hex())
+    if not same_shape(back, expect):
+        return impl, False, "read back %r, expected %r" % (back, expect)
+    return impl, True, None
+
+
+def run_positions(ctx, q):
+    yield
+    n = 0
+    for name, (L, data) in POS_LOGICALS.items():
+        positions = list(POSITIONS) + (list(BY_NAME) if L.get("type") == "fixed" else [])
+        for pos in positions:
+            for mode in READ_MODES:
+                for i in range(len(data)):
+                    if ctx.quick() and i and mode != "schemaless" and pos not in ("map-value", "array-item"):
+                        continue
+                    case = dict(kind="position", logical=name, position=pos, mode=mode, datum=i)
+                    impl, ok, why = eval_position(case)
+                    n += 1
+                    ctx.count("corr:container-positions", (name, pos, mode, i))
+                    if not ok:
+                        sym = "raised" if "raised" in (why or "") else "stored-bytes-differ" if "bytes written" in why else "read-back-not-converted-or-differs"
+                        ctx.violation("corr:container-positions", case, impl=impl, model="container of the top-level result",
+                                      signature="C16:container-position:%s:%s" % (pos, sym), found_input=True,
+                                      detail="%s in position %s, read %s: %s" % (name, pos, mode, why))
+    ctx.notes["container_position_cases"] = n
+    ctx.notes["container_positions"] = list(POSITIONS) + list(BY_NAME)
+
+
 # ------------------------------------------------------------------ decimals
 def dec_schema(kind, p, sc, size=None, omit_scale=False):
     s = {"type": "bytes" if kind == "bytes-decimal" else "fixed", "logicalType": "decimal", "precision": p}
@@ -1129,7 +1280,7 @@ def run(ctx):
     phases = {}
     q = ModelQueue()
     t0 = time.time()
-    gens = [fn(ctx, q) for fn in (run_dates, run_times, run_timestamps, run_local_zones, run_aware_zones, run_uuids, run_decimals)]
+    gens = [fn(ctx, q) for fn in (run_dates, run_times, run_timestamps, run_local_zones, run_aware_zones, run_uuids, run_decimals, run_positions)]
     for g in gens:
         next(g)                          # generate the cases, register the model batches
     phases["generate"] = round(time.time() - t0, 1)
@@ -1170,6 +1321,8 @@ def replay(ctx, rep):
         _, impl, ok, why = eval_ts(c)
     elif k == "uuid":
         impl, ok, why = eval_uuid(c)
+    elif k == "position":
+        impl, ok, why = eval_position(c)
     elif k in ("bytes-decimal", "fixed-decimal"):
         impl, ok, why, _ = eval_decimal(c)
         if not isinstance(c["datum"][2], str):
